@@ -1017,7 +1017,7 @@ func TestC19(t *testing.T) {
 		c.args = []string{"-inform=bin", "-in=" + wr("quote.dat", w.Raw), "-trusted_roots=" + wr("roots.pem", pA.Root.PEM)}
 		want := 0
 		what := ""
-		settingKind := rapid.SampledFrom([]string{"numeric", "numeric", "allow-list", "allow-list", "tee-tcb-svn", "separate-argument"}).Draw(t, "setting")
+		settingKind := rapid.SampledFrom([]string{"numeric", "numeric", "allow-list", "allow-list", "tee-tcb-svn", "separate-argument", "roots-flag-naming-no-file", "retry-settings"}).Draw(t, "setting")
 		if settingKind == "tee-tcb-svn" {
 			// minimum_tee_tcb_svn is compared component by component, all sixteen of them, whatever kind of TDX module the
 			// quote comes from: the quote's value with ONE component raised is missed, with one lowered is met
@@ -1051,6 +1051,36 @@ func TestC19(t *testing.T) {
 				c.args = append(c.args, "-minimum_tee_tcb_svn="+hex.EncodeToString(min))
 			}
 			what = fmt.Sprintf("minimum_tee_tcb_svn %s (component %d), quote has %x", how, k, w.Q.TeeTcbSvn[:])
+		} else if settingKind == "roots-flag-naming-no-file" {
+			// -trusted_roots names no existing file (a plain name, or a name with characters that mean something to a shell
+			// or a glob routine): the flag was given, so it is a malformed flag (exit 1) - never "as if not given", which
+			// would leave the embedded Intel root, or the config's bundles, in force. The quote is one that WOULD verify
+			// under what is silently used instead.
+			name := rapid.SampledFrom([]string{"no-such-roots.pem", "*.crt", "roots/*.pem", "no-such-dir/*.pem", "root?.pem", "[ab].pem", "roots.pem*x", "$HOME-roots.pem", "~roots.pem"}).Draw(t, "name")
+			args := []string{"-inform=bin"}
+			if rapid.Bool().Draw(t, "intelSample") {
+				args = append(args, "-in="+wr("quote.dat", testdata.RawQuote))
+			} else {
+				cfg := &ccpb.Config{RootOfTrust: &ccpb.RootOfTrust{CabundlePaths: []string{wr("config-roots.pem", pA.Root.PEM)}}, Policy: &ccpb.Policy{HeaderPolicy: &ccpb.HeaderPolicy{}, TdQuoteBodyPolicy: &ccpb.TDQuoteBodyPolicy{}}}
+				b, _ := prototext.Marshal(cfg)
+				args = append(args, "-in="+wr("quote.dat", w.Raw), "-config="+wr("config.textproto", b))
+			}
+			sepArg := rapid.Bool().Draw(t, "separate")
+			if sepArg {
+				args = append(args, "-trusted_roots", filepath.Join(dir, name))
+			} else {
+				args = append(args, "-trusted_roots="+filepath.Join(dir, name))
+			}
+			c.args = args
+			want = 1
+			what = "-trusted_roots naming no existing file: " + name
+		} else if settingKind == "retry-settings" {
+			// collateral wanted, the PCS unreachable: a download failure (exit 3) whatever the retry settings are - zero,
+			// negative, tiny, larger than the timeout
+			c.args = append(c.args, "-get_collateral=true", "-timeout="+rapid.SampledFrom([]string{"120ms", "300ms", "1ms", "0s"}).Draw(t, "timeout"),
+				"-max_retry_delay="+rapid.SampledFrom([]string{"-1s", "-1ns", "-5m", "0s", "1ns", "10ms", "1h"}).Draw(t, "maxRetryDelay"))
+			want = 3
+			what = "collateral wanted with the PCS unreachable, retry settings " + strings.Join(c.args[len(c.args)-2:], " ")
 		} else if settingKind == "separate-argument" {
 			// "-flag value" is the other spelling package flag documents for every non-boolean flag, and all of the
 			// tool's flags but -test_local_getter are such: the value is consumed and the flags behind it still count
